@@ -25,7 +25,7 @@ MANIFEST = {
                  'native replay; brute-force double loop on random triclinic trajectories as bounded stand-in',
 }
 UNITS = ['unit_msd', 'unit_lemmas', 'unit_dependencies']
-BOUNDED = ['bounded_msd']
+BOUNDED = ['bounded_msd', 'bounded_purity']
 META = {'clauses': {'C06.pad': 'P', 'C06.S2': 'A (FFT theorem) + P (bookkeeping)', 'C06.S1': 'P', 'C06.msd': 'P', 'C06.cart': 'P', 'C06.tracer': 'P (C14 unit re-run)', 'C06.dist': 'P (C01 units re-run)'},
         'not_decided': ['round-off of the FFT route against the direct sum (A-REAL): bounded comparison with tolerance only']}
 
@@ -318,3 +318,10 @@ def bounded_msd(tier, seed):
         if r['reproduced']:
             st.violation('msd', r['detail'], 'verif.props.c06:replay_msd', inp)
     return st.result()
+
+
+# generic purity stand-in (arguments unchanged, second call equal, fresh call equal) over this property's API calls
+from verif.native.purity import make_bounded as _make_purity  # noqa: E402
+from verif.props.purity_reg import REG as _PURITY_REG  # noqa: E402
+PURITY = _PURITY_REG['C06']
+bounded_purity = _make_purity('C06', PURITY)
